@@ -35,6 +35,16 @@ def parseDefs (s : String) : Option (Nat × Option (List Nat)) :=
 def parseVals (s : String) : Option (List Val) :=
   if s == "-" then some [] else (s.splitOn ":").mapM parseHex
 
+/-- `R0110…` (one character per entry) or `RE` (no entry) -/
+def parseReps (n : Nat) (s : String) : Option (List Nat) :=
+  if !s.startsWith "R" then none
+  else
+    let body := (s.drop 1).toString
+    if body == "E" then (if n = 0 then some [] else none)
+    else if body.toList.all (fun c => c == '0' || c == '1') && body.length == n then
+      some (body.toList.map (fun c => if c == '1' then 1 else 0))
+    else none
+
 def parseStep (s : String) : Option Op :=
   if s == "rg" then some .newRowGroup
   else match s.splitOn "." with
@@ -42,7 +52,13 @@ def parseStep (s : String) : Option Op :=
       let c ← col.toNat?
       let (n, ds) ← parseDefs defs
       let vs ← parseVals vals
-      some (.batch ⟨c, n, ds, vs⟩)
+      some (.batch ⟨c, n, ds, vs, none⟩)
+    | ["b", col, defs, vals, reps] => do      -- fifth field `R<levels>`: a rep_levels array was passed
+      let c ← col.toNat?
+      let (n, ds) ← parseDefs defs
+      let vs ← parseVals vals
+      let rs ← parseReps n reps
+      some (.batch ⟨c, n, ds, vs, some rs⟩)
     | _ => none
 
 structure Case where
